@@ -393,9 +393,16 @@ def run_total(case):
     viol = []
     texts = [text] + [c06.mutate(text, r, r.choice([1, 2, 3])) for _ in range(case['nmut'])]
     shapes = []
+    # in-contract but hostile device inputs: empty, very long and non-code-page response lines, control characters, extended
+    # keys from INKEY$, the extremes of RND and TIMER
+    hostile = {'input': ['', '\u20ac\u0416', 'x' * 5000, '1' * 400, '\x00', 'a\tb', ' , , ', '"unclosed', '1e400,1e-400', '\u00e9', '-', '.', '7'] * 3,
+               'inkey': ['', '\x00H', 'ab', '\u20ac', '\x1b', ''], 'rnd': [0.0, 0.99999994, 0.5] * 14,
+               'timer': [0.0, 86399.99, 43200.5] * 14, 'peek': [0, 255] * 4}
     for j, t in enumerate(texts):
         cfg = rt.CONFIGS6[(case['mseed'] + j) % 6]
-        o = diff.observe(t, cfg, script, max_ticks=30000)
+        if j % 2 == 1:
+            st['hostile_scripts'] = st.get('hostile_scripts', 0) + 1
+        o = diff.observe(t, cfg, hostile if j % 2 == 1 else script, max_ticks=30000)
         st['totality_texts'] += 1
         if o['status'] != 'ok' or 'outcome' not in o:
             continue
